@@ -13,6 +13,22 @@ def real_binary(ctx):
     for name, w in realbin.jobserver_abort_unreaped(ninja):
         ctx.violation(name, 'real binary: tools/realbin.py jobserver_abort_unreaped\n', w)
 
+def termination_motifs(ctx):
+    """"it always terminates having run everything needed": directed histories where restat pruning removes many phony statements
+    from the plan while other commands are still to run (exit 0 must mean every needed output is up to date)"""
+    import random
+    rnd = random.Random(ctx.seed * 6 + 5)
+    hists = [ec.motif_restat_phony_fan(rnd, 'C06_fan%d' % i) for i in range(60 if ctx.quick() else 600)]
+    rc, tr, err, out = ec.run_hists(hists)
+    for h in hists:
+        bs = tr.get(h.sid)
+        if bs is None: continue
+        for st, b in ec.pair(h, bs):
+            bad = ec.oracle_c01(h, st, b)
+            if bad: ctx.violation('exit-success-with-work-left', ec.replay_text(h), '%s build %d: ninja exited successfully but %s' % (h.sid, bs.index(b), '; '.join(t for _, _, t in bad[:4])))
+            if b.exit == 0 and 'stuck' in (b.err or ''): ctx.violation('stuck', ec.replay_text(h), '%s build %d: %s' % (h.sid, bs.index(b), b.err))
+
 def run(ctx):
     real_binary(ctx)
+    if not ctx.replay: termination_motifs(ctx)
     engcommon.run_engine_property(ctx, 'C06', plan_accept=600, oracles=[('limits', lambda h, st, b, prev: ec.oracle_c06(h, st, b))], faults=0.3, feat=dict(pools=0.8, dyndep=0.35))
